@@ -71,8 +71,38 @@ LEAVES = [
     L("s.svc.note", [["sys", []], ["svc", []], ["note", []]], "string", S, fam=["valid"]),
     L("s.ext", [["sys", []], ["ext", []]], "string", S, fam=["ns"]),
     L("s.xc.inner", [["sys", []], ["xc", []], ["inner", []]], "string", S, fam=["ns"]),
-    L("ty.e", [["types", []], ["e", []]], "empty", ["e:"], fam=["pres"]),
-    L("ty.u64", [["types", []], ["u64", []]], "uint64", ["u:18446744073709551615", "u:1"], fam=["types"]),
+    L("ty.e", [["types", []], ["e", []]], "empty", ["e:"], fam=["pres", "types"]),
+] + [
+    # the value engine (C12): one leaf per YANG built-in type, boundary and interior datums
+    L("ty." + n, [["types", []], [n, []]], t, v, fam=["types"], kind=("leaflist" if t.startswith("leaf-list:") else "leaf")) for n, t, v in [
+    ("i8", "int8", ["i:-128", "i:127", "i:0", "i:-1"]),
+    ("i16", "int16", ["i:-32768", "i:32767", "i:256"]),
+    ("i32", "int32", ["i:-2147483648", "i:2147483647", "i:7"]),
+    ("i64", "int64", ["i:-9223372036854775808", "i:9223372036854775807", "i:0", "i:4294967296"]),
+    ("u8", "uint8", ["u:0", "u:255", "u:7"]),
+    ("u16", "uint16", ["u:0", "u:65535"]),
+    ("u32", "uint32", ["u:4294967295", "u:65536"]),
+    ("u64", "uint64", ["u:18446744073709551615", "u:9223372036854775808", "u:0", "u:1"]),
+    ("d2", "decimal64", ["d:0", "d:-0.01", "d:1.5", "d:3.14", "d:100", "d:-92233720368547758.08", "d:92233720368547758.07"]),
+    ("d1", "decimal64", ["d:0.1", "d:-0.5", "d:922337203685477580.7", "d:-3"]),
+    ("d18", "decimal64", ["d:0.000000000000000001", "d:-9.223372036854775808", "d:9.223372036854775807", "d:1"]),
+    ("b", "boolean", ["b:true", "b:false"]),
+    ("en", "enumeration", ["en:on", "en:off"]),
+    ("idr", "identityref", ["id:red", "id:blue"]),
+    ("un", "union", ["un:5", "un:-7", "un:auto", "un:hello", "un:5x"]),
+    ("un2", "union", ["un:200", "un:true", "un:1.5", "un:-0.5"]),
+    ("str", "string", ["s:", "s:a b", "s:5", "s:true", "s:%C3%BCn%C3%AF", "s:a%22b%5Cc%3C%26%3E%27d", "s: lead"]),
+    ("bin", "binary", ["bin:aGVsbG8=", "bin:AA==", "bin:/+8="]),
+    ("bits", "bits", ["bits:b0", "bits:b0 b1", "bits:b1"]),
+    ("ll-u8", "leaf-list:uint8", ["ll:u:0|u:255", "ll:u:7", "ll:u:1|u:2|u:3"]),
+    ("ll-str", "leaf-list:string", ["ll:s:a|s:b c", "ll:s:x", "ll:s:a|s:b"]),
+    ("ll-d2", "leaf-list:decimal64", ["ll:d:-0.01|d:1.5", "ll:d:3.14"]),
+    ("ll-i64", "leaf-list:int64", ["ll:i:-9223372036854775808|i:5", "ll:i:9223372036854775807"]),
+    ("ll-en", "leaf-list:enumeration", ["ll:en:off|en:on", "ll:en:on"]),
+    ("ll-idr", "leaf-list:identityref", ["ll:id:blue|id:red", "ll:id:red"]),
+    ("ll-b", "leaf-list:boolean", ["ll:b:false|b:true", "ll:b:true"]),
+    ]
+] + [
     # top level choice with prefix related non member
     L("c.x", [["ch", []], ["alpha", []], ["x", []]], "string", S, choice="ch.kind", case="a", fam=["choice"]),
     L("c.y", [["ch", []], ["beta", []], ["y", []]], "string", S, choice="ch.kind", case="b", fam=["choice"]),
